@@ -274,10 +274,10 @@ var checks = map[string]Check{
 	},
 	"C05": {
 		Level:       "exploration",
-		Rule:        "bounded-exhaustive enumeration per protocol (raw, json, pb, thrift-binary, websocket json/pb sub-protocols; the HTTP-style protocol and the thrift struct protocol within their narrower documented field sets -- http: CALL/REPLY, URL-path methods, mapped content types, gzip only, header-shaped metadata compared as a sorted set; thrift-struct: thrift struct bodies, no codec choice, no filters): every value of each field alphabet against a base message (7 seqs, 3 types, 8 methods, 6 statuses, all metadata sequences of <=2 pairs over 10 atoms (quick: 1 pair + reduced 2-pair set), every registered codec id, all 256 single-byte bodies + escape mixes + 64 KiB, 5 pipes, boundary lengths) plus the full product of reduced alphabets; streams: every sequence of <=2 (quick) / 4 frames of a 7-frame alphabet through every uniform chunk size and every single split point, with per-frame size stability; a case is one message or one (sequence, chunking); classes = protocol x field class",
+		Rule:        "bounded-exhaustive enumeration per protocol (raw, json, pb, thrift-binary, websocket json/pb sub-protocols; the HTTP-style protocol and the thrift struct protocol within their narrower documented field sets -- http: CALL/REPLY, URL-path methods, mapped content types, gzip only, header-shaped metadata compared as a sorted set; thrift-struct: thrift struct bodies, no codec choice, no filters): every value of each field alphabet against a base message (7 seqs, 3 types, 8 methods, 6 statuses, all metadata sequences of <=2 pairs over 10 atoms (quick: 1 pair + reduced 2-pair set), every registered codec id, all 256 single-byte bodies + escape mixes + 64 KiB, 5 pipes, boundary lengths) plus the full product of reduced alphabets; streams: every sequence of <=3 (quick) / 4 frames of a 7-frame alphabet through every uniform chunk size and every single split point, with per-frame size stability; a case is one message or one (sequence, chunking); classes = protocol x field class",
 		Assumptions: []string{"field-by-field reference model written from the documented frame formats; domain limits are data in scen/c05.go (raw: 255/65535 byte limits; pb: service method must be valid UTF-8; ws sub-protocols are message-framed by the websocket layer)", "protocol instances are driven directly through Proto.Pack/Unpack over an in-memory reader"},
 		Jobs: func(tier string) []Job {
-			a, fr := "quick", "2"
+			a, fr := "quick", "3"
 			if tier == "thorough" {
 				a, fr = "full", "4"
 			}
@@ -289,10 +289,10 @@ var checks = map[string]Check{
 	},
 	"C11": {
 		Level:       "exploration",
-		Rule:        "bounded-exhaustive enumeration per codec (json, xml, form, plain, protobuf, thrift): round trip of a compiled zoo of destination types over boundary values (integer/float extremes, all 256 single-byte strings (valid UTF-8 only where the codec's domain requires), multi-byte runes, lengths 0..17, slices/arrays of 0..3 elements, nested structs) compared with reflect.DeepEqual (nil == empty slice); decoder totality: every string of length <=3 (quick) / 6 over a 10-13 symbol per-codec alphabet, every prefix and 7 single-byte mutations at every offset of valid encodings, into every destination type, with guard bytes around the destination; a case = (codec, type class, value) or (codec, input bytes, destination)",
+		Rule:        "bounded-exhaustive enumeration per codec (json, xml, form, plain, protobuf, thrift): round trip of a compiled zoo of destination types over boundary values (integer/float extremes, all 256 single-byte strings (valid UTF-8 only where the codec's domain requires), multi-byte runes, lengths 0..17, slices/arrays of 0..3 elements, nested structs) compared with reflect.DeepEqual (nil == empty slice); decoder totality: every string of length <=4 (quick) / 6 over a 10-13 symbol per-codec alphabet, every prefix and 7 single-byte mutations at every offset of valid encodings, into every destination type, with guard bytes around the destination; a case = (codec, type class, value) or (codec, input bytes, destination)",
 		Assumptions: []string{"domain limits are data in scen/c11.go: JSON/XML/protobuf strings must be valid UTF-8, XML strings exclude control characters and fixed arrays, NaN excluded"},
 		Jobs: func(tier string) []Job {
-			n := "3"
+			n := "4"
 			if tier == "thorough" {
 				n = "6"
 			}
@@ -304,10 +304,10 @@ var checks = map[string]Check{
 	},
 	"C12": {
 		Level:       "exploration",
-		Rule:        "bounded-exhaustive enumeration: every pipe over the registered filter ids up to length 3 (quick) / 8 (thorough, with a 1 MiB payload) plus md5 pipes of length 254, 255 and 256, crossed with payloads {empty, all 256 single bytes, 1 KiB compressible, 1 KiB incompressible}; every single-byte corruption (every offset x 255 values), truncation and extension of md5-packed payloads of length 0..16 (quick) / 96; unregistered ids at every position refused by Append and by Unpack of raw/json/pb frames; live sessions: a call sent through each of 6 pipes over 4 protocols, handler succeeding or failing, reply pipe read from the reply frame (all non-preemptive schedules)",
+		Rule:        "bounded-exhaustive enumeration: every pipe over the registered filter ids up to length 4 (quick) / 8 (thorough, with a 1 MiB payload) plus md5 pipes of length 254, 255 and 256, crossed with payloads {empty, all 256 single bytes, 1 KiB compressible, 1 KiB incompressible}; every single-byte corruption (every offset x 255 values), truncation and extension of md5-packed payloads of length 0..32 (quick) / 96; unregistered ids at every position refused by Append and by Unpack of raw/json/pb frames; live sessions: a call sent through each of 6 pipes over 4 protocols, handler succeeding or failing, reply pipe read from the reply frame (all non-preemptive schedules)",
 		Assumptions: []string{"registered filters in the harness process: gzip ('g', level 5) and md5 ('m')"},
 		Jobs: func(tier string) []Job {
-			l, c, big := "3", "16", "0"
+			l, c, big := "4", "32", "0"
 			if tier == "thorough" {
 				l, c, big = "8", "96", "1"
 			}
@@ -320,10 +320,10 @@ var checks = map[string]Check{
 	},
 	"C10": {
 		Level:       "exploration",
-		Rule:        "(i) both exported mappers on every identifier of length <=5 (quick) / 8 over {A,B,a,b,_,1} x 5 prefixes: total, deterministic, equal to a reference implementation on the sub-language the documentation defines (letter words joined by _ or __), README rows verbatim; (ii) live dispatch: every ordered pair of 10 compiled controller/function registrations (chosen to cover every mapping rule and name-collision class) x 3x3 group nestings x both mappers x unknown-handlers set/unset; after registration every returned name and 10+ near-misses per name are requested as CALL and as PUSH; (iii) a header plugin that rewrites the requested name (aliases, case folding) x 11 wire names x CALL/PUSH x unknown-handlers: the handler registered under the rewritten name runs and sees that name; a case = one (identifier, prefix) or one registration program",
+		Rule:        "(i) both exported mappers on every identifier of length <=6 (quick) / 8 over {A,B,a,b,_,1} x 5 prefixes: total, deterministic, equal to a reference implementation on the sub-language the documentation defines (letter words joined by _ or __), README rows verbatim; (ii) live dispatch: every ordered pair of 10 compiled controller/function registrations (chosen to cover every mapping rule and name-collision class) x 3x3 group nestings x both mappers x unknown-handlers set/unset; after registration every returned name and 10+ near-misses per name are requested as CALL and as PUSH; (iii) a header plugin that rewrites the requested name (aliases, case folding) x 11 wire names x CALL/PUSH x unknown-handlers: the handler registered under the rewritten name runs and sees that name; a case = one (identifier, prefix) or one registration program",
 		Assumptions: []string{"the framework's Fatalf is intercepted by a logger outputter that panics on CRITICAL, so a registration conflict is observable without exiting", "identifier classes with leading/trailing/3+ underscores or digits are checked for totality and determinism only (the documentation does not define their mapping)"},
 		Jobs: func(tier string) []Job {
-			l := "5"
+			l := "6"
 			if tier == "thorough" {
 				l = "8"
 			}
@@ -336,16 +336,16 @@ var checks = map[string]Check{
 	},
 	"C20": {
 		Level:       "model_checking",
-		Rule:        "differential explicit-state enumeration: every first-user operation sequence up to depth 2 (quick) / 3 over the setter alphabet of Message (13 setters), Args (6), pooled Socket (5) and the handler context (10 ways to dirty it x handler returns / fails / panics), release to the (LIFO) pool, re-acquire with pointer identity asserted, then every second-user sequence of length <=2; all public getters, the decode path and the packed bytes must equal those of a freshly constructed object; for contexts the second handler's view and the exact reply bytes are compared with the fresh-context reference",
+		Rule:        "differential explicit-state enumeration: every first-user operation sequence up to depth 3 (quick) / 4 over the setter alphabet of Message (13 setters), Args (6), pooled Socket (5) and the handler context (10 ways to dirty it x handler returns / fails / panics), release to the (LIFO) pool, re-acquire with pointer identity asserted, then every second-user sequence of length <=2; all public getters, the decode path and the packed bytes must equal those of a freshly constructed object; for contexts the second handler's view and the exact reply bytes are compared with the fresh-context reference",
 		Assumptions: baseAssumptions,
 		Jobs: func(tier string) []Job {
-			d := "2"
+			d := "3"
 			if tier == "thorough" {
 				d = "4"
 			}
 			var js []Job
 			for _, k := range []string{"message", "args", "socket", "ctx"} {
-				j := sched("c20", "kind="+k+",depth="+d, 0, 1)
+				j := sched("c20", "kind="+k+",depth="+d, 0, 4)
 				if tier == "thorough" {
 					j.Shards = 8
 				}
@@ -382,14 +382,14 @@ var checks = map[string]Check{
 	},
 	"C15": {
 		Level:       "model_checking",
-		Rule:        "explicit enumeration of all histories up to depth 2 (quick) / 4 over 18 operations {ok call, 7 failure probes, proxied call with backend error, proxied call/push with backend down, secure key mismatch, auth reject, overload reject, pending call cut by a corrupt frame, unknown-route and OK replies whose write fails, push whose write fails}; after each history every failure probe is repeated and its (code,msg,cause) compared with the triple observed before the history in the same pristine-restored process, and every predefined status is compared field by field",
+		Rule:        "explicit enumeration of all histories up to depth 3 (quick) / 4 over 18 operations {ok call, 7 failure probes, proxied call with backend error, proxied call/push with backend down, secure key mismatch, auth reject, overload reject, pending call cut by a corrupt frame, unknown-route and OK replies whose write fails, push whose write fails}; after each history every failure probe is repeated and its (code,msg,cause) compared with the triple observed before the history in the same pristine-restored process, and every predefined status is compared field by field",
 		Assumptions: append([]string{"the predefined statuses are restored to their pristine values at the start of every execution (they are process-global), so every history starts from the documented state"}, baseAssumptions...),
 		Jobs: func(tier string) []Job {
-			d := "2"
+			d := "3"
 			if tier == "thorough" {
 				d = "4"
 			}
-			j := sched("c15", "depth="+d, 0, 4)
+			j := sched("c15", "depth="+d, 0, 16)
 			j.EnvOnly = true
 			if tier == "thorough" {
 				j.Shards = 16
